@@ -2,72 +2,21 @@
   Stef.Otlp.Clean: the trigger-excluding hypotheses of the `_partial` theorems, as decidable
   (Bool-valued) predicates on the OTLP trees. Each conjunct names a recorded finding or an
   invariant of pdata. Core Lean only.
+
+  Gone since the repo fixes: the "no -0.0" conditions (59db810 setters, 7828c58 CopyFromSlice)
+  and the "nested maps of at most one entry" condition (571960a).
 -/
 import Stef.Otlp.Metrics
 import Stef.Otlp.Traces
 
 namespace Stef.Otlp
 
-/-- a double that the generated float setters store faithfully. Since repo commit 59db810 (setters,
-    copies and diffs compare with pkg.Float64Equal = bit patterns) that is every double, so the
-    `nnz` predicates below hold for every value (`*.nnz_true` in Stef/Proofs/OtlpValue.lean); they are
-    kept as the place where a restriction of the setters would go (before 59db810: `f != negZero`). -/
-def nnzF (_f : Nat) : Bool := true
-
-/-- a histogram bound that Float64Array.CopyFromSlice stores faithfully: it still compares with
-    `slices.Equal` (Go `==`), so -0.0 is excluded (finding negzero-bounds-not-stored). -/
-def boundOk (f : Nat) : Bool := f != negZero
-
-mutual
-  /-- every double in the value is storable (see `nnzF`) -/
-  def AnyValue.nnz : AnyValue → Bool
-    | .dbl f => nnzF f
-    | .slice vs => vs.nnz
-    | .map kvs => kvs.nnz
-    | _ => true
-  def Values.nnz : Values → Bool
-    | .nil => true
-    | .cons v t => v.nnz && t.nnz
-  def KVs.nnz : KVs → Bool
-    | .nil => true
-    | .cons _ v t => v.nnz && t.nnz
-end
-
-mutual
-  /-- every map *inside* the value has at most one entry (finding nested-map-index) -/
-  def AnyValue.small : AnyValue → Bool
-    | .slice vs => vs.small
-    | .map kvs => decide (kvs.length ≤ 1) && kvs.small
-    | _ => true
-  def Values.small : Values → Bool
-    | .nil => true
-    | .cons v t => v.small && t.small
-  /-- the values of an attribute list are `small` (the list itself may be of any length) -/
-  def KVs.small : KVs → Bool
-    | .nil => true
-    | .cons _ v t => v.small && t.small
-end
-
-mutual
-  /-- every double in a re-used STEF value, hidden storage included, is storable (see `nnzF`) -/
-  def SVal.nnz : SVal → Bool
-    | .mk c a _ k _ => (match c with | .dbl f => nnzF f | _ => true) && a.nnz && k.nnz
-  def SVals.nnz : SVals → Bool
-    | .nil => true
-    | .cons v t => v.nnz && t.nnz
-  def SKVs.nnz : SKVs → Bool
-    | .nil => true
-    | .cons _ v t => v.nnz && t.nnz
-end
-
-def SAttrs.nnz (a : SAttrs) : Bool := a.store.nnz
-
 def nodupKeys : List Str → Bool
   | [] => true
   | k :: t => !t.contains k && nodupKeys t
 
 mutual
-  /-- pcommon.Map never holds a key twice, at any depth -/
+  /-- pcommon.Map never holds a key twice, at any depth (Map.PutEmpty replaces) -/
   def AnyValue.nodup : AnyValue → Bool
     | .slice vs => vs.nodup
     | .map kvs => nodupKeys kvs.keys && kvs.nodup
@@ -80,18 +29,15 @@ mutual
     | .cons _ v t => v.nodup && t.nodup
 end
 
-/-- an attribute map the converters carry faithfully: distinct keys, no nested map with two or
-    more entries (and storable doubles: vacuous, see `nnzF`) -/
-def KVs.clean (a : KVs) : Bool := nodupKeys a.keys && a.nodup && a.small && a.nnz
+/-- an attribute map as pdata builds it: distinct keys at every level -/
+def KVs.clean (a : KVs) : Bool := nodupKeys a.keys && a.nodup
 
-def Exemplar.clean (e : Exemplar) : Bool :=
-  decide (e.vt ≤ 2) && (e.vt != 2 || nnzF e.v) && validIds e && e.attrs.clean
-
-def optNnz (has : Bool) (v : Nat) : Bool := !has || nnzF v
+/-- an exemplar with a defined value type, ids of 16 / 8 bytes, and a proper attribute map -/
+def Exemplar.clean (e : Exemplar) : Bool := decide (e.vt ≤ 2) && validIds e && e.attrs.clean
 
 def int32ok (x : Nat) : Bool := decide (x < 4294967296)
 
-/-- attributes and flags of a clean data point of any kind -/
+/-- attributes and flags of a clean data point of any kind (only the NoRecordedValue bit is defined) -/
 def Point.base (p : Point) : Bool := p.attrs.clean && decide (p.flags ≤ 1)
 
 /-- exemplars: clean ones, and none on a point flagged NoRecordedValue (finding
@@ -100,22 +46,19 @@ def Point.exOk (p : Point) : Bool := if flagged p then p.exemplars.isEmpty else 
 
 /-- number point: it has a value (findings sorted-drops-valueless-number-point,
     valueless-number-point-becomes-nrv) -/
-def Point.cleanNum (p : Point) : Bool :=
-  p.base && p.exOk && (p.vt == 1 || p.vt == 2) && (p.vt != 2 || nnzF p.v)
+def Point.cleanNum (p : Point) : Bool := p.base && p.exOk && (p.vt == 1 || p.vt == 2)
 
 /-- histogram point: one more bucket than bounds unless flagged (finding
     histogram-no-buckets-rejected; other length mismatches are invalid OTLP) -/
 def Point.cleanHist (p : Point) : Bool :=
-  p.base && p.exOk && (flagged p || p.buckets.length == p.bounds.length + 1) &&
-  optNnz p.hasSum p.sum && optNnz p.hasMin p.min && optNnz p.hasMax p.max && p.bounds.all boundOk
+  p.base && p.exOk && (flagged p || p.buckets.length == p.bounds.length + 1)
 
+/-- exponential histogram point: scale and offsets are int32 -/
 def Point.cleanExp (p : Point) : Bool :=
-  p.base && p.exOk && optNnz p.hasSum p.sum && optNnz p.hasMin p.min && optNnz p.hasMax p.max &&
-  nnzF p.zeroThreshold && int32ok p.scale && int32ok p.posOff && int32ok p.negOff
+  p.base && p.exOk && int32ok p.scale && int32ok p.posOff && int32ok p.negOff
 
 /-- summary point: not flagged (finding summary-no-recorded-value) -/
-def Point.cleanSummary (p : Point) : Bool :=
-  p.base && p.flags == 0 && nnzF p.sum && p.quantiles.all (fun q => nnzF q.1 && nnzF q.2)
+def Point.cleanSummary (p : Point) : Bool := p.base && p.flags == 0
 
 /-- a data point of a metric of type `t` outside every recorded trigger -/
 def Point.clean : MType → Point → Bool
@@ -132,17 +75,7 @@ def ScopeMetrics.clean (s : ScopeMetrics) : Bool := s.attrs.clean && s.metrics.a
 def ResourceMetrics.clean (r : ResourceMetrics) : Bool := r.attrs.clean && r.scopes.all ScopeMetrics.clean
 def Metrics.clean (m : Metrics) : Bool := m.rms.all ResourceMetrics.clean
 
-/-! ### traces -/
-
+/-- an id of `n` bytes -/
 def idOk (n : Nat) (id : Str) : Bool := id.length == n && id.all (fun b => decide (b < 256))
-
-def Event.clean (e : Event) : Bool := e.attrs.clean
-def Link.clean (l : Link) : Bool := l.attrs.clean && idOk 16 l.traceID && idOk 8 l.spanID
-def Span.clean (s : Span) : Bool :=
-  s.attrs.clean && idOk 16 s.traceID && idOk 8 s.spanID && idOk 8 s.parent && s.events.all Event.clean &&
-  s.links.all Link.clean
-def ScopeSpans.clean (s : ScopeSpans) : Bool := s.attrs.clean && s.spans.all Span.clean
-def ResourceSpans.clean (r : ResourceSpans) : Bool := r.attrs.clean && r.scopes.all ScopeSpans.clean
-def Traces.clean (t : Traces) : Bool := t.rss.all ResourceSpans.clean
 
 end Stef.Otlp
